@@ -191,7 +191,9 @@ class SAMIReader(BaseReader):
         captions = CaptionList(layout_info=parent_layout)
         milliseconds = 0
 
-        for p in sami_soup.select(f'p[lang|={language}]'):
+        # every P carries exactly the language the parser found for it
+        # (an "|=" selector would hand the cues of "pt-BR" to "pt" as well)
+        for p in sami_soup.find_all('p', lang=language):
             start_str = p.parent.get('start')
             if not start_str:
                 raise CaptionReadTimingError(
@@ -685,6 +687,9 @@ class SAMIParser(HTMLParser):
 
             # if no language detected, set it as the default
             lang = lang or DEFAULT_LANGUAGE_CODE
+            # the tag carries exactly the language found for it (an inline
+            # lang attribute is replaced, not doubled)
+            attrs[:] = [a for a in attrs if a[0].lower() != 'lang']
             attrs.append(('lang', lang))
             if lang not in self.langs:
                 self.langs.append(lang)
